@@ -317,6 +317,13 @@ End Infer.
 Arguments call_outcome {E} infer c.
 Arguments infer_output_types {E} infer c.
 
+(* The constructor as a whole: BaseVars.__post_init__ runs when the Inputs dataclass is created, i.e. BEFORE the node exists -
+   an argument of the wrong kind for its field (None or a list where a Var is required, a non-Var object anywhere, a bare Var where a
+   sequence is required) raises at the call and inference is never consulted.  [arg] can only express the kind errors whose payload is
+   made of Vars; a non-Var object is modelled by the same [kind_ok = false]. *)
+Definition construct {E} (infer : smodel -> E + list (string * option oty)) (c : call) : outcome E :=
+  if args_ok (s_ins (c_sig c)) (c_ins c) then call_outcome infer c else RaisedOther.
+
 (* ------------------------------------------------------------------------------------------------ well-formedness used by theorems *)
 Fixpoint nodupb (l : list string) : bool :=
   match l with [] => true | x :: t => negb (existsb (seqb x) t) && nodupb t end.
